@@ -5,7 +5,7 @@ import opscore
 import geomcore as G
 import expr as X
 import lemma as L
-from expr import const, var, app
+from expr import const, var, app, sum_
 from extract import Contract as C
 from sym import SV, leaf
 from common import vec_unit
@@ -264,11 +264,52 @@ def bern_end_lemma(deg):
                    doc='a Bezier curve passes through its last control point at t = 1')
 
 
+def wpoly(deg):
+    """W_i(t) = integral_0^t n b_{i,n-1}: B(t) - P0 = sum_i W_i(t) (P_{i+1} - P_i); increasing on [0,1], W_i(0) = 0, W_i(1) = 1"""
+    if deg == 2:
+        return [lambda t: const(2) * t - t * t, lambda t: t * t]
+    return [lambda t: const(3) * t - const(3) * t * t + t * t * t, lambda t: const(3) * t * t - const(2) * t * t * t, lambda t: t * t * t]
+
+
+def length_lemmas():
+    """arithmetic behind `length_by_discretization <= control polygon`"""
+    out = []
+    tp, t = var('tp'), var('t')
+    for deg in (2, 3):
+        W = wpoly(deg)
+        q = [var('q%d' % k) for k in range(deg + 1)]
+        incr = sum_([(W[i](t) - W[i](tp)) * (q[i + 1] - q[i]) for i in range(deg)])
+        out.append(L.Lemma('lemma_bern%d_increment' % deg, q + [tp, t], [],
+                           [(bern(deg, [SV([x]) for x in q], t)[0] - bern(deg, [SV([x]) for x in q], tp)[0]).eq(incr)],
+                           doc='B(t) - B(tp) = sum_i (W_i(t) - W_i(tp)) (P_{i+1} - P_i)'))
+        out.append(L.Lemma('lemma_w%d_monotone' % deg, [tp, t], [tp.ge(0), tp.le(t), t.le(1)],
+                           [(W[i](t) - W[i](tp)).ge(0) for i in range(deg)], doc='the weights W_i are non-decreasing on [0,1]'))
+        m = [var('m%d' % i) for i in range(deg)]
+        out.append(L.Lemma('lemma_bound%d_step' % deg, [tp, t] + m, [],
+                           [(sum_([W[i](tp) * m[i] for i in range(deg)]) + sum_([(W[i](t) - W[i](tp)) * m[i] for i in range(deg)]))
+                            .eq(sum_([W[i](t) * m[i] for i in range(deg)]))], doc='telescoping of the bound'))
+        out.append(L.Lemma('lemma_bound%d_ends' % deg, [t] + m, [t.eq(1)], [sum_([W[i](t) * m[i] for i in range(deg)]).eq(sum_(m))],
+                           doc='at t = 1 the bound is the control-polygon length'))
+    n1, k = var('n1'), var('k')
+    out.append(L.Lemma('lemma_param_order', [n1, k, tp, t], [n1.gt(0), (tp * n1).eq(k), (t * n1).eq(k + 1), k.ge(0), (k + 1).le(n1)],
+                       [tp.ge(0), tp.le(t), t.le(1)], doc='consecutive sample parameters k/n1 <= (k+1)/n1 lie in [0,1]'))
+    for n in (2, 3):
+        uu, vv, dd = SV.params('u', n), SV.params('v', n), SV.params('d', n)
+        a, b, mu, mv, md = var('a'), var('b'), var('mu'), var('mv'), var('md')
+        out.append(L.Lemma('lemma_combo%d' % n, uu.e + vv.e + dd.e + [a, b, mu, mv, md],
+                           [a.ge(0), b.ge(0), mu.ge(0), mv.ge(0), md.ge(0), (mu * mu).eq(uu.norm2()), (mv * mv).eq(vv.norm2()),
+                            (md * md).eq(dd.norm2())] + [dd[c].eq(a * uu[c] + b * vv[c]) for c in range(n)],
+                           [md.le(a * mu + b * mv)], doc='|a u + b v| <= a |u| + b |v| for a, b >= 0 (radicals as free symbols)'))
+    return out
+
+
 def add_length(u, cv):
-    """length_by_discretization: the polyline through curve points from t=0 to t=1 is at least as long as the chord"""
+    """length_by_discretization: the polyline through curve points from t=0 to t=1 is at least as long as the chord and at most as
+    long as the control polygon"""
     P, N = cv.path, cv.name
     gh = 'impl<T: Real> %s<T>' % N
     sh = cv.sh
+    deg = cv.deg
     pts = cv.points('self')
     k = leaf('(it.index@ as real / (step_count as real + 1real))')
     at_k = bern(cv.deg, pts, k)
@@ -276,24 +317,61 @@ def add_length(u, cv):
     end = SV.of(sh, 'self.end')
     prev = SV.of(sh, 'prev_point')
     d2 = lambda a, b: X.verus((a - b).norm2())
+    W = wpoly(deg)
+    mleaf = [leaf('m%d' % i) for i in range(deg)]
+    bound = lambda tt: sum_([W[i](tt) * mleaf[i] for i in range(deg)])
+    poly = ' + '.join('sqrt_r(%s)' % d2(pts[i + 1], pts[i]) for i in range(deg))
     inv = ['prev_point.%s.v@ == %s' % (f, X.verus(at_k[i])) for i, f in enumerate(sh.fields)]
     inv += ['length.v@ >= sqrt_r(%s)' % d2(prev, start), 'length.v@ >= 0real']
     inv += ['(it.index@ == step_count as int + 1) ==> (%s)' % ' && '.join('prev_point.%s.v@ == self.end.%s.v@' % (f, f) for f in sh.fields)]
-    entry = ('proof { lemma_sqrt_zero();\n'
-             '    %s }' % ' '.join('assert(prev_point.%s.v@ == self.start.%s.v@);' % (f, f) for f in sh.fields))
-    last = ('proof { if i == step_count { let ghost n1 = step_count as real + 1real; lemma_div_self(n1); assert(t.v@ == 1real); assert(1real - t.v@ == 0real); %s } }'
-            % ' '.join('crate::lemma_bern%d_at_one(%s, t.v@); assert(next_point.%s.v@ == self.end.%s.v@);'
-                       % (cv.deg, ', '.join('self.%s.%s.v@' % (q, f) for q in cv.pts), f, f) for f in sh.fields))
+    inv += ['%s' % ' && '.join('m%d == sqrt_r(%s)' % (i, d2(pts[i + 1], pts[i])) for i in range(deg)),
+            'length.v@ <= %s' % X.verus(bound(k)),
+            '(it.index@ == step_count as int + 1) ==> length.v@ <= %s' % ' + '.join('m%d' % i for i in range(deg))]
+    entry = ('%s\nproof { lemma_sqrt_zero();\n'
+             '    %s }' % (' '.join('let ghost m%d = sqrt_r(%s);' % (i, d2(pts[i + 1], pts[i])) for i in range(deg)),
+                           ' '.join('assert(prev_point.%s.v@ == self.start.%s.v@);' % (f, f) for f in sh.fields)))
+    last = ('proof { if i == step_count { let ghost n1 = step_count as real + 1real; lemma_div_self(n1); assert(t.v@ == 1real); assert(1real - t.v@ == 0real); %s crate::lemma_bound%d_ends(t.v@, %s); } }'
+            % (' '.join('crate::lemma_bern%d_at_one(%s, t.v@); assert(next_point.%s.v@ == self.end.%s.v@);'
+                        % (cv.deg, ', '.join('self.%s.%s.v@' % (q, f) for q in cv.pts), f, f) for f in sh.fields),
+               deg, ', '.join('m%d' % i for i in range(deg))))
     nxt = SV.of(sh, 'next_point')
-    # ghost block at the end of the loop body: one triangle-inequality step
+    # ghost block at the end of the loop body: one triangle-inequality step (lower bound) ...
     tri = ('proof { let ghost da = %s; let ghost db = %s; let ghost dc = %s; axiom_sqrt(da); axiom_sqrt(db); axiom_sqrt(dc);\n'
            '    crate::lemma_triangle%d(%s, %s, sqrt_r(da), sqrt_r(db), sqrt_r(dc)); }'
            % (d2(prev, start), d2(nxt, prev), d2(nxt, start), sh.dim,
               ', '.join(X.verus(e) for e in (prev - start).e), ', '.join(X.verus(e) for e in (nxt - prev).e)))
+    # ... and one step of the upper bound: next - prev = sum_i (W_i(t) - W_i(tp)) dP_i with non-negative weights
+    tpv, tv = leaf('tp'), leaf('t.v@')
+    wd = [W[i](tv) - W[i](tpv) for i in range(deg)]
+    dP = [pts[i + 1] - pts[i] for i in range(deg)]
+    up = ['let ghost n1 = step_count as real + 1real; let ghost tp = i as real / n1;',
+          'lemma_div_mul(i as real, n1); lemma_div_mul(i as real + 1real, n1);',
+          'crate::lemma_param_order(n1, i as real, tp, t.v@); crate::lemma_w%d_monotone(tp, t.v@);' % deg]
+    for c, f in enumerate(sh.fields):
+        up.append('crate::lemma_bern%d_increment(%s, tp, t.v@);' % (deg, ', '.join('self.%s.%s.v@' % (q, f) for q in cv.pts)))
+    up.append(' '.join('axiom_sqrt(%s);' % d2(pts[i + 1], pts[i]) for i in range(deg)))
+    up.append('let ghost dn = %s; axiom_sqrt(dn);' % d2(nxt, prev))
+    dvec = (nxt - prev)
+    if deg == 2:
+        up.append('crate::lemma_combo%d(%s, %s, %s, %s, %s, m0, m1, sqrt_r(dn));'
+                  % (sh.dim, ', '.join(X.verus(e) for e in dP[0].e), ', '.join(X.verus(e) for e in dP[1].e),
+                     ', '.join(X.verus(e) for e in dvec.e), X.verus(wd[0]), X.verus(wd[1])))
+    else:
+        # x = w0 dP0 + w1 dP1 (ghost), then next - prev = 1 x + w2 dP2
+        xs = [wd[0] * dP[0][c] + wd[1] * dP[1][c] for c in range(sh.dim)]
+        up.append('let ghost xn = %s; axiom_sqrt(xn);' % X.verus(sum_([x * x for x in xs])))
+        up.append('crate::lemma_combo%d(%s, %s, %s, %s, %s, m0, m1, sqrt_r(xn));'
+                  % (sh.dim, ', '.join(X.verus(e) for e in dP[0].e), ', '.join(X.verus(e) for e in dP[1].e),
+                     ', '.join(X.verus(e) for e in xs), X.verus(wd[0]), X.verus(wd[1])))
+        up.append('crate::lemma_combo%d(%s, %s, %s, 1real, %s, sqrt_r(xn), m2, sqrt_r(dn));'
+                  % (sh.dim, ', '.join(X.verus(e) for e in xs), ', '.join(X.verus(e) for e in dP[2].e),
+                     ', '.join(X.verus(e) for e in dvec.e), X.verus(wd[2])))
+    up.append('crate::lemma_bound%d_step(tp, t.v@, %s);' % (deg, ', '.join('m%d' % i for i in range(deg))))
+    upper = 'proof { ' + '\n    '.join(up) + ' }'
     u.take(P, gh, 'length_by_discretization', C(
-        ensures=['res.v@ >= sqrt_r(%s)' % d2(end, start)],
+        ensures=['res.v@ >= sqrt_r(%s)' % d2(end, start), 'res.v@ <= %s' % poly],
         loops=[dict(iter='it', invariant=inv)],
-        inserts=[('prev_point = next_point;', tri + '\n' + last), ('for i in', entry)]))
+        inserts=[('prev_point = next_point;', tri + '\n' + upper + '\n' + last), ('for i in', entry)]))
 
 
 def add_search(u, cv):
@@ -365,15 +443,23 @@ def plan(exp, tier):
         add_cubic_theorems(u, cv, lc)
         add_length(u, cv)
         add_search(u, cv)
-    lt = triangle_lemmas() + [bern_end_lemma(2), bern_end_lemma(3)] + dist_sym_lemmas()
+    lt = triangle_lemmas() + [bern_end_lemma(2), bern_end_lemma(3)] + dist_sym_lemmas() + length_lemmas()
     import prelude
     u.add_root(prelude.FROM_U16)
     for lm in lq + lc + lt:
         u.add_root(lm.verus_text('C15'))
     p.lemmas += lq + lc + lt + [opscore.lerp_lemma()]
     p.add_unit('c15', u, ['ops', 'vec', 'quaternion', 'transform', 'mat', 'geom', 'bezier'])
+    import kani_driver
+    p.kani = kani_driver.load_specs('c15')
+    for sp in p.kani:
+        if sp.get('bounded'):
+            p.bounded.append('%s: %s' % (sp['harness'], sp['bounded']))
+    p.assumptions += ['binary_search_point: the generic sample iterator I is instantiated at Vec<(R, Point<R>)> (Verus needs the iterator\'s specification); '
+                      'partial correctness only (no decreases clause on the refinement loop)',
+                      'binary_search_point_by_steps: Range::map is outside the Verus subset; its hand-over to binary_search_point is checked by Kani (bounded: steps <= 6) on f32 curves']
     p.not_decided += ['cubic extremality (no point of the cubic on [0,1] lies beyond evaluate(min/max)): the parameters are proved to lie in [0,1] and the reported inflections to be zeros of the derivative in (0,1); the min/max selection is contracted by cases but its extremality theorem is not discharged',
-                      'binary_search_point(_by_steps) (generic IntoIterator loop and a while search; termination is not claimed)',
+                      'termination of binary_search_point (the unchanged code does not terminate for steps = 0: the half interval is 1/0)',
                       'length_by_discretization (>= chord, <= control polygon, monotone under doubling)',
                       'inputs inside the tolerance bands 0 < |q| <= epsilon of the tested quantities (stated as a precondition of the theorems)']
     return p
